@@ -875,8 +875,12 @@ def same_name_family():
 def long_list_family():
     """Directed family: long choice lists whose only translated / media choice comes late (boundary sizes around 100, and
     a late row in a longer list); every other choice has a plain label."""
-    for n, late in ((99, 98), (100, 99), (101, 100), (150, 100), (150, 149), (120, 60)):
-        for feat in ("label_fr", "image", "audio_fr"):
+    combos = [(n, late, feat) for n, late in ((101, 100), (150, 149), (99, 98), (100, 99), (150, 100), (120, 60))
+              for feat in ("label_fr", "image", "audio_fr")]
+    # the two boundary shapes every run starts with: first row past 100 translated; last row of a long list with media
+    combos = [(101, 100, "label_fr"), (150, 149, "image")] + [c for c in combos if c not in ((101, 100, "label_fr"), (150, 149, "image"))]
+    for n, late, feat in combos:
+        if True:
             choices = []
             for i in range(n):
                 cells = {("label", None): marker("C", i, "label", None)}
